@@ -1217,6 +1217,10 @@ def toUuid (P : Prims) (f : Flags) (c : Nat) (v : V) : Outcome V :=
     | .int _ i => if 0 ≤ i && i < 2 ^ 128 then pure (.uuid c i.toNat) else .perr .valueError
     | _ => .perr .typeError
 
+def isSNaN : V → Bool
+  | .dec _ (.nan true) => true
+  | _ => false
+
 /-- `t(data)` for an Enum class: the first member whose value equals `data`, else ValueError -/
 def enumCall (E : Env) (k : Nat) (v : V) : Outcome V :=
   match E.enum? k with
@@ -1224,7 +1228,7 @@ def enumCall (E : Env) (k : Nat) (v : V) : Outcome V :=
   | some d =>
     -- hashing a signalling NaN raises TypeError (caught by `Enum.__call__`), the fallback scan compares it
     -- with every member value: InvalidOperation as soon as one is a number
-    if (match v with | .dec _ (.nan true) => true | _ => false) && d.members.any (fun m => (num? m.2).isSome)
+    if isSNaN v && d.members.any (fun m => (num? m.2).isSome)
     then .escape .invalidOperation else
     match d.members.findIdx? (fun m => pyeq m.2 v) with
     | some i => .ok (.enum k i)
